@@ -51,6 +51,10 @@ class BaseGotranODECodePrinter(StrPrinter):
     def _print_Or(self, expr):
         return f"Or({', '.join(self._print(a) for a in expr.args)})"
 
+    def _print_Not(self, expr):
+        # sympy's "~(...)" is accepted by the grammar but cannot be built into an expression
+        return f"Not({self._print(expr.args[0])})"
+
     def _print_And(self, expr):
         return f"And({', '.join(self._print(a) for a in expr.args)})"
 
